@@ -442,7 +442,10 @@ class HTTPChannel(wasyncore.dispatcher):
         except ClientDisconnected:
             self.logger.info("Client disconnected while serving %s" % task.request.path)
             task.close_on_finish = True
-        except Exception:
+        except BaseException:
+            # BaseException, not Exception: whatever the application raises
+            # (SystemExit, ...) must end in a 500 / a closed connection here,
+            # otherwise the channel keeps this request forever
             self.logger.exception("Exception while serving %s" % task.request.path)
 
             if not task.wrote_header:
